@@ -132,8 +132,22 @@ def resolve_table(case):
                 break
         if t is None:
             return None
+        pre_prog = []
+        if t.get('pre') is not None:
+            # a prepare / conditions / before callback of this transition triggers an event re-entrantly (flat,
+            # unqueued): that event is processed completely first; the transition then leaves the state the
+            # model is in NOW (not its declared source), or is given up if the exception gets through
+            if depth >= MAX_CHAIN:
+                raise Cycle()
+            sub = expand(sid, t['pre'][1], depth + 1)
+            if sub is not None and sub[0] == 'move':
+                if sub[3] and not case['on_exc']:
+                    return sub
+                pre_prog = sub[1]
+                sid = sub[2]
+                p = pt[sid]
         if t['dst'] is None:
-            return ('stay',)
+            return ('move', pre_prog, sid, False) if pre_prog else ('stay',)
         d = pt[t['dst']]
         r = 0
         while r < len(d) and r < len(p) and d[r] == p[r]:
@@ -143,7 +157,7 @@ def resolve_table(case):
         exits = [p[k - 1] for k in range(len(p), r, -1)]
         enters = [d[k - 1] for k in range(r + 1, len(d) + 1)]
         enters += leaf_closure(nd, d[-1])
-        prog = []
+        prog = list(pre_prog)
         for x in exits:
             prog.append((0, x))
             if nd[x].get('cb_exit') == 'raise':
@@ -462,6 +476,22 @@ def _model_class(case, run, is_async):
         if n.get('reg') == 'model' and n['timeout'] > 0:
             # the model's convenience method: add_model registers it as an on_timeout callback of the state
             setattr(Model, 'on_timeout_' + name_of(paths(case)[sid]), mk_timeout(sid))
+    def mk_pre_trigger(ev):
+        if is_async:
+            async def f(self, *a, **k):
+                res = self.trigger('e%d' % ev)
+                if inspect.isawaitable(res):
+                    await res
+                return True
+        else:
+            def f(self, *a, **k):
+                self.trigger('e%d' % ev)
+                return True
+        return f
+
+    for k, t in enumerate(case['transitions']):
+        if t.get('pre') is not None:
+            setattr(Model, 'cb_pre_%d' % k, mk_pre_trigger(t['pre'][1]))
     Model.rec_exception = rec_exception
     return Model
 
@@ -483,8 +513,13 @@ def _machine(case, run):
     Model = _model_class(case, run, is_async)
     models = [Model(m) for m, _i in case['models']]
     pt = paths(case)
-    transitions = [{'trigger': 'e%d' % t['ev'], 'source': name_of(pt[t['src']]),
-                    'dest': None if t['dst'] is None else name_of(pt[t['dst']])} for t in case['transitions']]
+    transitions = []
+    for k, t in enumerate(case['transitions']):
+        d = {'trigger': 'e%d' % t['ev'], 'source': name_of(pt[t['src']]),
+             'dest': None if t['dst'] is None else name_of(pt[t['dst']])}
+        if t.get('pre') is not None:
+            d[t['pre'][0]] = ['cb_pre_%d' % k]        # 'prepare' | 'conditions' | 'before'
+        transitions.append(d)
     kw = {}
     if case['on_exc']:
         kw['on_exception'] = ['rec_exception']
@@ -888,6 +923,12 @@ def gen_case(rng, cls):
         'model_eq': rng.choice(['identity', 'identity', 'value', 'value', 'unhashable']),
         'pks': [rng.randrange(2) for _ in range(n_models)],
         'transitions': transitions, 'models': models, 'history': []})
+    if not nested and case['queued'] is False:
+        # flat, unqueued: a prepare / conditions / before callback of a transition may trigger another event first,
+        # so that the state actually left differs from the transition's declared source
+        for t in transitions:
+            if rng.random() < 0.15:
+                t['pre'] = [rng.choice(['prepare', 'conditions', 'before']), rng.randrange(n_events)]
     if n_models > 1 and rng.random() < (0.3 if case['model_eq'] == 'identity' else 0.7):
         case['layout'] = 'per_model'
     if case['layout'] == 'shared' or case['model_eq'] == 'identity':
@@ -898,6 +939,8 @@ def gen_case(rng, cls):
         for n in nd.values():
             if n['cb_enter'] and n['cb_enter'][0] == 'trigger':
                 n['cb_enter'] = ['plain']
+        for t in transitions:
+            t.pop('pre', None)
     # history: (delay, event) pairs — delays below / equal to / above the timeouts in play
     touts = sorted(set(n['timeout'] for n in nd.values() if n['timeout'])) or [2]
     hist = []
@@ -1017,6 +1060,10 @@ def shrink_steps(case):
         if len(case['transitions']) > 1:
             c = copy.deepcopy(case)
             del c['transitions'][i]
+            yield c
+        if case['transitions'][i].get('pre') is not None:
+            c = copy.deepcopy(case)
+            c['transitions'][i].pop('pre')
             yield c
     for k, top in enumerate(case['states']):
         if len(case['states']) > 1:
